@@ -45,7 +45,9 @@ FLOORS = {
                          "payloads_written": 10000, "disk_readbacks": 1000}, "keys": 100},
     "thorough": {"counts": {"writer_stream_comparisons": 700000}, "keys": 150},
 }
-KINDS = ["path", "bytesio", "stringio", "binfile", "textfile", "console", "custom"]
+KINDS = ["path", "bytesio", "stringio", "binfile", "textfile", "console", "custom",
+         "textfile-latin1", "textfile-utf16"]
+TEXT_ENCODINGS = {"textfile": "utf-8", "textfile-latin1": "latin-1", "textfile-utf16": "utf-16"}
 
 
 class W:
@@ -73,9 +75,10 @@ class W:
             self.path = os.path.join(tmp, f"bin{idx}.gcode")
             self.stream = open(self.path, "wb")
             self.writer = FileWriter(self.stream)
-        elif kind == "textfile":
+        elif kind in TEXT_ENCODINGS:
+            # a caller-supplied text stream in the caller's encoding: the file must hold the same TEXT
             self.path = os.path.join(tmp, f"txt{idx}.gcode")
-            self.stream = open(self.path, "w", encoding="utf-8", newline="")
+            self.stream = open(self.path, "w", encoding=TEXT_ENCODINGS[kind], newline="")
             self.writer = FileWriter(self.stream)
         elif kind == "console":
             class FakeStd:
@@ -108,13 +111,20 @@ class W:
             return self.stream.getvalue()
         if k == "stringio":
             return self.stream.getvalue().encode("utf-8")
-        if k in ("binfile", "textfile", "path"):
+        if k in ("binfile", "path") or k in TEXT_ENCODINGS:
             if not after_flush:
                 return None
             if not os.path.exists(self.path):
                 return b"" if not self.expected else None
             with open(self.path, "rb") as f:
-                return f.read()
+                data = f.read()
+            if k in TEXT_ENCODINGS and k != "textfile":
+                # compare as text: decode with the stream's own encoding, re-encode as UTF-8
+                try:
+                    return data.decode(TEXT_ENCODINGS[k]).encode("utf-8")
+                except UnicodeDecodeError:
+                    return b"<undecodable in %s>" % TEXT_ENCODINGS[k].encode() + data[:60]
+            return data
         return None
 
 
@@ -158,6 +168,7 @@ def _run(ctx, col, case, rng, tmp):
     ref = RecordingWriter()
     g.add_writer(ref)
     kinds = "+".join(sorted(w.kind for w in writers))
+    latin1 = any(w.kind == "textfile-latin1" for w in writers)
     log = []
     seen = 0
 
@@ -187,18 +198,19 @@ def _run(ctx, col, case, rng, tmp):
 
     def compare(after_flush, label):
         for i, w in enumerate(writers):
-            if not after_flush and w.kind in ("binfile", "textfile", "path"):
+            on_disk = w.kind in ("binfile", "path") or w.kind in TEXT_ENCODINGS
+            if not after_flush and on_disk:
                 continue
-            if after_flush and not w.registered and w.kind in ("binfile", "textfile", "path"):
+            if after_flush and not w.registered and on_disk:
                 continue    # flush()/teardown() only concern registered writers
-            if w.kind in ("binfile", "textfile") and not w.connected:
+            if (w.kind == "binfile" or w.kind in TEXT_ENCODINGS) and not w.connected:
                 # not connected: builder.flush() cannot reach the stream; its owner flushes
                 w.stream.flush()
             got = w.actual(after_flush)
             if got is None:
                 continue
             col.count("writer_stream_comparisons")
-            if w.kind in ("binfile", "textfile", "path"):
+            if on_disk:
                 col.count("disk_readbacks")
             if got != bytes(w.expected):
                 what = "bytes-lost" if len(got) < len(w.expected) else (
@@ -209,6 +221,21 @@ def _run(ctx, col, case, rng, tmp):
                             got_len=len(got), want_len=len(w.expected),
                             mech=f"c14:{w.kind}:{what}:{label}")
         return True
+
+    def emit_one(which):
+        if which == "move":
+            g.move(x=rng.uniform(-50, 50), y=rng.uniform(-50, 50), F=rng.choice([600, 1200]))
+        elif which == "rapid":
+            g.rapid(z=rng.uniform(0, 10), comment=rng.choice(["retract", "subir ñ"] + ([] if latin1 else ["上へ"])))
+        elif which == "comment":
+            g.comment(rng.choice(["capa número 3", "plain", "ø12 façade é"] + ([] if latin1 else ["日本語 ✓", "ø12 – façade"])))
+        elif which == "tool":
+            if g.state.is_tool_active:
+                g.tool_off()
+            else:
+                g.tool_on("cw", 1000)
+        else:
+            g.set_distance_mode(rng.choice(["absolute", "relative"]))
 
     for _ in range(rng.randint(25, 45)):
         r = rng.random()
@@ -226,24 +253,19 @@ def _run(ctx, col, case, rng, tmp):
             col.key(kinds, "remove")
         elif r < 0.80:
             which = rng.choice(["move", "comment", "tool", "mode", "rapid"])
-            if which == "move":
-                g.move(x=rng.uniform(-50, 50), y=rng.uniform(-50, 50), F=rng.choice([600, 1200]))
-            elif which == "rapid":
-                g.rapid(z=rng.uniform(0, 10), comment=rng.choice(["retract", "subir ñ", "上へ"]))
-            elif which == "comment":
-                g.comment(rng.choice(["capa número 3", "日本語 ✓", "plain", "ø12 – façade"]))
-            elif which == "tool":
-                if g.state.is_tool_active:
-                    g.tool_off()
-                else:
-                    g.tool_on("cw", 1000)
-            else:
-                g.set_distance_mode(rng.choice(["absolute", "relative"]))
+            try:
+                emit_one(which)
+            except Exception as e:     # every registered writer is healthy: delivery must not fail
+                account()
+                fail("emitting-call-raised", call=which, error=repr(e), cause=repr(e.__cause__),
+                     mech=f"c14:write-raised:{type(e).__name__}")
+                return
             log.append([which])
             account()
             col.key(kinds, "write")
             if not compare(False, "write"):
                 return
+            continue
         elif r < 0.92:
             g.flush()
             account()
@@ -300,7 +322,7 @@ def _run(ctx, col, case, rng, tmp):
     if not compare(True, "final-flush"):
         return
     for w in writers:
-        if w.stream is not None and w.kind in ("binfile", "textfile"):
+        if w.stream is not None and (w.kind == "binfile" or w.kind in TEXT_ENCODINGS):
             w.stream.close()
         if w.kind == "path":
             w.writer.disconnect()
